@@ -472,6 +472,7 @@ impl Engine for E5 {
         match focus {
             "C12" => &["lock_contended", "interleaved_batches", "concurrent_flush", "stream_through_queuing"],
             "C13" => &["wide_utf8", "whitespace_edged", "max_size_datagram", "emsgsize", "nonblocking_eagain", "send_error_returned"],
+            "C19" => &["write_during_emit_judged", "shared_sink_datagram_was_needed", "lock_contended"],
             "C14" => &["concurrent_stats_updates", "stats_through_queuing", "stats_through_bounded_queue_with_refusals", "stats_through_queue_with_handler", "dropped_counted", "stats_checked"],
             _ => &[],
         }
@@ -485,6 +486,10 @@ impl Engine for E5 {
         let mut flt = rng.split(3);
         let mut sch = rng.split(4);
         let sink = match focus {
+            "C19" => match cfg.weighted(&[50, 50]) {
+                0 => SinkKind::BufUdp,
+                _ => SinkKind::BufUnix,
+            },
             "C12" => match cfg.weighted(&[35, 35, 30]) {
                 0 => SinkKind::BufUdp,
                 1 => SinkKind::BufUnix,
@@ -521,8 +526,9 @@ impl Engine for E5 {
         };
         let n_tasks = match focus {
             "C12" => 2 + cfg.usize_below(3),
+            "C19" => 1 + cfg.usize_below(4),
             "C13" => {
-                if cfg.chance(4, 5) {
+                if cfg.chance(3, 5) {
                     1
                 } else {
                     2
@@ -532,7 +538,7 @@ impl Engine for E5 {
         };
         let via_client = match focus {
             "C12" => true,
-            "C13" => false,
+            "C13" | "C19" => false,
             _ => cfg.chance(1, 6),
         };
         let queuing = match focus {
@@ -544,7 +550,7 @@ impl Engine for E5 {
             _ => false,
         };
         let nonblocking = cfg.chance(1, 2);
-        let max_datagram = if focus != "C12" && cfg.chance(1, 6) { Some(*cfg.pick(&[16usize, 64, 500])) } else { None };
+        let max_datagram = if focus != "C12" && focus != "C19" && cfg.chance(1, 6) { Some(*cfg.pick(&[16usize, 64, 500])) } else { None };
         let capv = cap.unwrap_or(512);
         let mut next_id = 0u32;
         let mut tasks = Vec::new();
@@ -592,7 +598,17 @@ impl Engine for E5 {
             tasks.push(ops);
         }
         let mut plan = Vec::new();
-        if focus != "C12" && cfg.chance(7, 10) {
+        // C12 is stated for interleavings, not for failures; a quarter of its runs refuse sends all
+        // the same (a failed flush of one thread must not damage what another thread emits next)
+        let want_faults = match focus {
+            "C12" => cfg.chance(1, 4),
+            "C19" => false,
+            // two emitters on a socket sink: mostly without refused sends, so that the
+            // "send what remains when flushed" barrier is judged under interleavings
+            "C13" if n_tasks > 1 => cfg.chance(3, 10),
+            _ => cfg.chance(7, 10),
+        };
+        if want_faults {
             let rate = *flt.pick(&[5u64, 15, 35]);
             for _ in 0..(next_id as usize * 2 + 6) {
                 plan.push(if flt.chance(rate, 100) {
@@ -957,9 +973,17 @@ fn judge(case: &NetCase, obs: &Obs, end_tasks: &[TaskInfo], out: &mut Outcome, w
                 out.probe("stream_through_queuing");
             }
             if case.tasks.len() > 1 || case.queuing {
-                // several emitters: whatever goes wrong here is about sharing the sink
+                // several emitters: whatever goes wrong here is about sharing the sink (C12) - and
+                // it is still a violation of what the clause means for one emitter: a shared sink
+                // that loses, splits or keeps back metrics does so whoever is counted as emitter
                 for v in out.violations[before..].iter_mut() {
-                    v.props = vec!["C12".to_string()];
+                    let mut p = vec!["C12".to_string()];
+                    if faulty {
+                        p.push("C07".to_string());
+                    } else if socket_sink {
+                        p.push("C13".to_string());
+                    }
+                    v.props = p;
                 }
             } else if faulty {
                 for v in out.violations[before..].iter_mut() {
@@ -983,13 +1007,46 @@ fn judge(case: &NetCase, obs: &Obs, end_tasks: &[TaskInfo], out: &mut Outcome, w
                     if !on_wire {
                         let mut props = vec!["C06", "C13"];
                         if case.tasks.len() > 1 {
-                            props = vec!["C12"];
+                            // "send what remains when flushed" (C13) and "written by the time a later
+                            // flush returns Ok" (C06) do not stop holding because another thread
+                            // was emitting at the time
+                            props = vec!["C12", "C13", "C06"];
                         }
                         out.violate(&props, "stream.flush-ok-but-not-written", format!("flush on task {} returned Ok at step {} but metric #{} (acknowledged at step {}) was not yet on the wire", f.task, f.step_after, e.id, e.step_after));
                         break 'buf;
                     }
                 }
                 out.probe("flush_barrier_checked");
+            }
+        }
+        // packing under concurrency (C19 through a shared sink): a datagram that leaves during an
+        // emit of metric m - and does not carry m - left because m did not fit behind it. The buffer
+        // lock makes this exact for every interleaving: whatever was buffered when emit(m) made
+        // room is what the datagram carries. Oversize metrics, datagrams that carry m (exact fill),
+        // flushes and the drop are not judged here; nor are histories with refused sends.
+        if socket_sink && texts_unique && !faulty && !case.queuing {
+            for r in obs.ledger.iter().filter(|r| r.result.is_ok()) {
+                let Some(t) = r.task else { continue };
+                let Some(o) = obs.ops.iter().find(|o| o.task == t && r.idx >= o.ledger_before && r.idx < o.ledger_after && o.step_before <= r.step && r.step <= o.step_after) else { continue };
+                if o.op != "emit" {
+                    continue;
+                }
+                out.probe("write_during_emit_judged");
+                let m = o.text.as_bytes();
+                if m.len() + 1 > cap || find_sub(&r.payload, m) {
+                    continue;
+                }
+                if r.payload.len() + m.len() + 1 <= cap {
+                    let mut props = vec!["C19"];
+                    if case.tasks.len() > 1 {
+                        props.push("C12");
+                    }
+                    out.violate(&props, "stream.needless-datagram", format!("emit of metric #{} ({} bytes) on task {} sent a datagram of {} bytes although the metric and its terminator fit behind it in the {cap}-byte buffer", o.id, m.len(), t, r.payload.len()));
+                    break 'buf;
+                }
+                if case.tasks.len() > 1 {
+                    out.probe("shared_sink_datagram_was_needed");
+                }
             }
         }
         // probes for C12
